@@ -49,6 +49,9 @@ def run(rep, idx, tier):
     rep.require("C20.3", 4)
     rep.require("C20.4", 20)
     rep.require("C20.5", 30)
+    rep.require("C20.6", 1)
+    from . import glue as _glue
+    _glue.argument_agreement(rep, "C20.6", idx)
     P = Pol(idx)
     port_polarity(rep, idx, P)
     drivers(rep, idx, P)
